@@ -10,16 +10,28 @@ ASSUMPTIONS = ["leaf tasks of a schedule have distinct names (loader rule, C10)"
 
 
 def build_schedule(case):
+    """the schedule as track objects.  `case['pruned']` (optional): per element, sub-tasks the element is first built WITH and that
+    are then taken out again with Parallel.remove_task (what a task filter does) — the element must then be what it would be if it
+    had been built without them"""
     from esrally.track import track
 
     op = track.Operation("op", "bulk")
     sched = []
-    for e in case["schedule"]:
+    pruned = case.get("pruned") or {}
+    for ei, e in enumerate(case["schedule"]):
         subs = [track.Task(f"t{s['id']}", op, clients=s["clients"], completes_parent=s["cp"], any_completes_parent=s["acp"]) for s in e["tasks"]]
         if e.get("leaf"):
             sched.append(subs[0])
         else:
-            sched.append(track.Parallel(subs, clients=e["clients"]))
+            extra = [track.Task(f"x{ei}_{k}", op, clients=x["clients"]) for k, x in enumerate(pruned.get(str(ei), []))]
+            # interleave the extra tasks at their recorded positions
+            allt = list(subs)
+            for k, x in enumerate(pruned.get(str(ei), [])):
+                allt.insert(min(x["pos"], len(allt)), extra[k])
+            par = track.Parallel(allt, clients=e["clients"])
+            for t in extra:
+                par.remove_task(t)
+            sched.append(par)
     return sched
 
 
@@ -56,8 +68,18 @@ def gen_schedule(rng, malformed=False):
 
 
 def gen_alloc(ctx):
+    rng = ctx.rng
     for _ in range(ctx.budget):
-        yield {"schedule": gen_schedule(ctx.rng)}
+        case = {"schedule": gen_schedule(rng)}
+        if rng.random() < 0.3:
+            # parallel elements that were built with more sub-tasks and pruned afterwards
+            pr = {}
+            for ei, e in enumerate(case["schedule"]):
+                if not e.get("leaf") and rng.random() < 0.6:
+                    pr[str(ei)] = [{"clients": rng.randint(1, 4), "pos": rng.randrange(0, 4)} for _ in range(rng.randint(1, 2))]
+            if pr:
+                case["pruned"] = pr
+        yield case
 
 
 def gen_alloc_malformed(ctx):
@@ -364,6 +386,25 @@ def run_driver(ctx, case):
             if mm[k] != impl[k]:
                 ctx.diff("Driver." + k, mm[k], impl[k])
                 break
+        # which physical clients the driver hands to which worker: every client 0..n-1 of the allocation exactly once, as
+        # calculate_worker_assignments(hosts, Allocator.clients) lays them out (workers without clients are not started)
+        from esrally.driver import driver as _drv
+
+        handed = {}
+        for ev in sim.trace:
+            if ev["ev"] == "deliver" and ev["msg"] in ("PrepareBenchmark", "StartBenchmark"):
+                for dst, msg in ev["out"]:
+                    if isinstance(msg, _drv.StartWorker):
+                        handed[msg.worker_id] = [a["client_id"] for a in msg.client_allocations.allocations]
+        got_workers = [handed[k] for k in sorted(handed)]
+        ma = ctx.model("alloc", "assign", {"hosts": [{"name": 0, "cores": case["cores"]}], "n": m["clients"]})
+        want_workers = [w for _h, ws in ma["r"] for w in ws if w]
+        if got_workers != want_workers:
+            ctx.diff("clients handed to the workers by Driver.start_benchmark", want_workers, got_workers)
+        flat = sorted(c for w in got_workers for c in w)
+        if flat != list(range(m["clients"])):
+            ctx.fail(cls + ":clients-not-all-assigned", "the clients handed to workers are not each client 0..n-1 of the allocation exactly once",
+                     list(range(m["clients"])), flat)
         exp = [sorted(t["id"] for t in e["tasks"]) for e in case["schedule"]]
         if impl["steps"] != S:
             ctx.fail(cls + ":steps", "Driver.number_of_steps differs from the number of schedule elements", S, impl["steps"])
